@@ -46,6 +46,39 @@ type Program struct {
 	LoadNote []string
 	implCache map[*types.Func][]*ssa.Function
 	genFiles  map[string]bool
+
+	// Vocab: names of the module functions that existed when the rule tables were written (vocabulary.txt).
+	// A module function that is not in it was introduced later (typically a helper extracted from a known
+	// function): rules do not know it by name, so the engines interpret it through its body ("transparent").
+	// nil = no vocabulary loaded: nothing is transparent.
+	Vocab map[string]bool
+}
+
+// LoadVocab reads the vocabulary file (one function name per line).
+func (p *Program) LoadVocab(path string) error {
+	b, err := os.ReadFile(path)
+	if err != nil {
+		return err
+	}
+	p.Vocab = map[string]bool{}
+	for _, l := range strings.Split(string(b), "\n") {
+		l = strings.TrimSpace(l)
+		if l != "" && !strings.HasPrefix(l, "#") {
+			p.Vocab[l] = true
+		}
+	}
+	return nil
+}
+
+// Transparent: a hand-written, named module function with a body that the vocabulary does not list.
+func (p *Program) Transparent(f *ssa.Function) bool {
+	if p.Vocab == nil || f == nil || len(f.Blocks) == 0 || f.Parent() != nil || !p.funcSet[f] {
+		return false
+	}
+	if f.Synthetic != "" || p.IsGenerated(f) {
+		return false
+	}
+	return !p.Vocab[p.Name(f)]
 }
 
 // InModule reports whether the import path belongs to the analysed module.
